@@ -595,7 +595,17 @@ pub fn c10_history(ctx: &mut Ctx, wrapped: &Term, reference: &CsReference, ops: 
         let got = answer(handle, *call, &reference.text);
         if last || check_all {
           let want = &reference.answers[CS_CALLS.iter().position(|c| c == call).unwrap()];
-          if &got != want {
+          // A map whose segments lie behind the end of their lines: text-less streaming (map() of a
+          // composite) forwards such segments, streaming with text has no chunk for them, so one fill
+          // path stores Some(map attributing nothing) and the other None. C10 compares attribution,
+          // and both attribute nothing: presence alone is not compared for these trees (DESIGN 6.8).
+          let presence_only = match (&got, want) {
+            (Answer::Map(a, x), Answer::Map(b, y)) => a != b && x.iter().all(|e| e.is_none()) && y.iter().all(|e| e.is_none()) && has_segment_beyond_its_line(wrapped),
+            _ => false,
+          };
+          if presence_only {
+            ctx.count("presence_only_difference_on_segments_beyond_their_line");
+          } else if &got != want {
             let clause = match (&got, want) {
               (Answer::Panic(_), _) => "panic",
               (Answer::Stream(a, ..), Answer::Stream(b, ..)) if a != b => "generated_info",
@@ -660,6 +670,18 @@ fn brief(a: &Answer) -> String {
   }
 }
 
+/// Some SourceMapSource in `t` (no inner map) has a mapped segment at or behind the end of its line
+/// or behind the last line of its text.
+pub fn has_segment_beyond_its_line(t: &Term) -> bool {
+  t.any(&|x| match x {
+    Term::Sms(s) if s.inner.is_none() && s.map.raw_mappings.is_none() => {
+      let lines: Vec<&str> = s.value.split_inclusive('\n').collect();
+      s.map.segs.iter().any(|g| g.orig.is_some() && lines.get(g.gl as usize - 1).map_or(true, |l| g.gc as usize >= l.len()))
+    }
+    _ => false,
+  })
+}
+
 pub fn c10_pool(tier: &str) -> Vec<Term> {
   use crate::trees::{K_A, K_B};
   let o = |t: &str| Term::orig(t, &crate::trees::file_for(t, crate::trees::TEXTS_FULL));
@@ -700,6 +722,15 @@ pub fn c10_pool(tier: &str) -> Vec<Term> {
   v.push(Term::replace(Term::concat(vec![o("a\nb"), o("a;b")]), vec![Repl::new(2, 4, "\n"), Repl::new(0, 0, "//")]));
   v.push(Term::concat(vec![Term::cached(Term::concat(vec![o("a"), Term::raw("b"), Term::raw("")])), o("a\nb")]));
   v.push(Term::boxed(Term::replace(o("a; {b}\n c"), vec![Repl::new(3, 5, ""), Repl::new(3, 4, "W").named("w")])));
+  // a map whose only segment lies behind the end of its line: no character is mapped with columns,
+  // the line is attributed without (an answer for one column setting must not serve the other)
+  {
+    use crate::refcodec::Seg;
+    let far = Term::sms("ab\ncd\n", "far.js", crate::trees::map_spec(vec![Seg { gl: 1, gc: 5, orig: Some(K_A) }, Seg { gl: 2, gc: 7, orig: Some(K_B) }], true));
+    v.push(Term::concat(vec![Term::raw("x"), far.clone()]));
+    v.push(Term::concat(vec![far.clone(), Term::raw("y")]));
+    v.push(far);
+  }
   if tier == "thorough" {
     v.extend(sms.iter().step_by(7).cloned());
     v.extend(scr.iter().step_by(5).cloned());
